@@ -175,3 +175,14 @@ def integrate_periodic_small(case, params):
     if not b or 'knots' not in b:
         return False
     return b['periodic'] >= 0 and len(b['knots']) - b['order'] - b['periodic'] - 1 < b['order'] + b['periodic']
+
+
+def lower_order_weights(case, params):
+    """lower_order (an approximation: interpolation of the homogeneous control points at the Greville points of the
+    lower-order basis) applied to a rational object gives a non-positive weight"""
+    hist = case.get('history') or []
+    if not hist or hist[-1][0] != 'lower_order' or 'non-positive weight' not in case.get('what', ''):
+        return False
+    start = case.get('start') or {}
+    # the object is rational at that point: it started rational or was made rational on the way
+    return bool(start.get('rational')) or any(h[0] in ('force_rational', 'make_identical') for h in hist)
